@@ -588,7 +588,10 @@ for k in seq:
     p = os.path.join(d, name + ".yaml"); open(p, "w").write(yaml.safe_dump(doc, sort_keys=False))
     paths = []
     for fn, macros in extra or []:
-        mp = os.path.join(d, fn); open(mp, "w").write(yaml.safe_dump({"macros": macros}, sort_keys=False)); paths.append(mp)
+        mp = os.path.join(d, fn); text = yaml.safe_dump({"macros": macros}, sort_keys=False)
+        if not os.path.exists(mp) or open(mp).read() != text:
+            open(mp, "w").write(text)          # a library file is only rewritten when its content really changes
+        paths.append(mp)
     try:
         out.append(Yaml2Regex(p, macros_from_terminal=paths or None).produce_regex())
     except Exception as e:
